@@ -15,6 +15,7 @@ inductive Val where
   | none
   | fill                           -- a distinguished fillvalue object
   | tup (vs : List Val)            -- tuples built by zip/batched/pairwise/enumerate, or by user functions
+  | lst (vs : List Val)            -- a list returned by an aggregation
   deriving Repr
 
 mutual
@@ -25,6 +26,7 @@ def Val.beq : Val → Val → Bool
   | .none, .none => true
   | .fill, .fill => true
   | .tup a, .tup b => Val.beqList a b
+  | .lst a, .lst b => Val.beqList a b
   | _, _ => false
 def Val.beqList : List Val → List Val → Bool
   | [], [] => true
@@ -42,6 +44,7 @@ def Val.truthy : Val → Bool
   | .none => false
   | .fill => true
   | .tup vs => !vs.isEmpty
+  | .lst vs => !vs.isEmpty
 
 /-- the ordering/equality key of a value, when it has one (objects and numbers) -/
 def Val.key? : Val → Option Int
